@@ -32,6 +32,11 @@ fn main() {
         }
         "replay" => replay(args.get(2).map(|s| s.as_str()).unwrap_or_else(|| usage())),
         "worker" => worker(&args[2..]),
+        "goto" => {
+            let t = std::fs::read_to_string(&args[2]).unwrap();
+            debug_goto(&t, args[3].parse().unwrap());
+            0
+        }
         "parse" => {
             let t = std::fs::read_to_string(&args[2]).unwrap();
             let p = syntax::parse_module(&t);
@@ -61,6 +66,7 @@ fn check(prop: &str, tier: Tier) -> i32 {
         "C10" => props::ide_sweep::run(props::ide_sweep::Which::C10, tier),
         "C20" => props::ide_sweep::run(props::ide_sweep::Which::C20, tier),
         "C15" => props::messages::run(tier),
+        "C19" => props::tokens::run(tier),
         "C11" => props::history::run(tier),
         "C12" => props::cancel::run(tier),
         "C13" => props::positions::run_c13(tier),
@@ -93,6 +99,7 @@ fn replay(path: &str) -> i32 {
         "C10" => props::ide_sweep::replay(props::ide_sweep::Which::C10, w),
         "C20" => props::ide_sweep::replay(props::ide_sweep::Which::C20, w),
         "C15" => props::messages::replay(w),
+        "C19" => props::tokens::replay(w),
         "C11" => props::history::replay(w),
         "C12" => props::cancel::replay(w),
         "C13" => props::positions::replay_c13(w),
@@ -143,4 +150,13 @@ fn worker(args: &[String]) -> i32 {
         },
         _ => 2,
     }
+}
+
+#[allow(dead_code)]
+fn debug_goto(text: &str, off: u32) {
+    let (h, f) = ide::AnalysisHost::new_single_file(text);
+    let an = h.snapshot();
+    println!("goto {:?}", an.goto_definition(ide::FilePos::new(f, off.into())));
+    println!("hover {:?}", an.hover(ide::FilePos::new(f, off.into())));
+    println!("hl {:?}", an.syntax_highlight(f, None));
 }
